@@ -332,7 +332,10 @@ def predicate0(case, obs):
         if case["reduce"]:
             exact = exact.sum(-1)
         exact = exact.reshape(iq.shape)
-        cg_solve = (not chol_route(st, n)) and st["solves"] and (
+        # InvQuadLogdet (inv_quad_logdet with logdet=True above max_cholesky_size) solves by CG whatever fast_computations.solves
+        # says; only InvQuad (logdet=False / stand-alone inv_quad) consults it
+        sv_eff = st["solves"] or (case["api"] == "iql" and case["logdet"])
+        cg_solve = (not chol_route(st, n)) and sv_eff and (
             leaf in ops.GENERIC or (leaf == "KPAD" and spec_leaf(spec)["dk"]["k"] == "diag"))
         lanczos_jitter = leaf in ("KPAD", "SumKron") and not (leaf == "KPAD" and spec_leaf(spec)["dk"]["k"] in ("const", "diag"))
         kron_cg = leaf == "Kron" and (not chol_route(st, n)) and st["solves"]
@@ -1089,7 +1092,7 @@ def model_comparable(case, obs):
         return None          # a refused broadcast rhs: nothing to compare (the model expands the rhs, by meaning)
     if case["rhs"] == "xmat":
         return None          # output batch larger than the operator's: direct predicate only
-    if spec_leaf(case["spec"]).get("ill") and not (chol_route(st, n) or not st["solves"]):
+    if spec_leaf(case["spec"]).get("ill") and not (chol_route(st, n) or not (st["solves"] or (case["api"] == "iql" and case["logdet"]))):
         return None          # kappa = 100 on the CG route: float trajectories of model and implementation need not agree
     if isinstance(obs.get("croot"), str):
         return None          # an UPPER triangular cached root (not modelled; does not occur in the grid)
@@ -1097,7 +1100,8 @@ def model_comparable(case, obs):
         return (1e-9, 1e-9)
     tol_iq, tol_ld = 1e-9, 1e-9
     leaf = spec_leaf(case["spec"])
-    cg_solve = (not chol_route(st, n)) and st["solves"] and (
+    sv_eff = st["solves"] or (case["api"] == "iql" and case["logdet"])
+    cg_solve = (not chol_route(st, n)) and sv_eff and (
         leaf["k"] in ops.GENERIC or (leaf["k"] == "KPAD" and leaf["dk"]["k"] == "diag"))
     if cg_solve and case["rhs"] != "none":
         tol_iq = 1e-7
